@@ -267,3 +267,81 @@ def antiamp_script(r, idx, fate_vec=None):
         steps.append({"do": "run", "us": 3000000})
     steps.append({"do": "run", "us": 1000000})
     return {"cfg": cfg, "steps": steps, "tag": {"family": "antiamp-" + fam, "idx": idx}}
+
+
+# ------------------------------------------------------------------------------------------------
+# C04
+
+CORRUPT_MENU = ["corrupt:0:1", "corrupt:0:64", "corrupt:1:255", "corrupt:5:8", "corrupt:9:1", "corrupt:20:4",
+                "corrupt:-1:1", "corrupt:-17:128", "corrupt:-30:2", "corrupt:600:16",
+                "trunc:1", "trunc:5", "trunc:20", "trunc:21", "trunc:100", "trunc:600", "trunc:1199",
+                "ext:1", "ext:16", "ext:100"]
+DUP_MENU = ["dup:0", "dup:1000", "dup:30000", "dup:400000", "dup:2500000"]
+
+
+def auth_fates(r, n):
+    out = []
+    for _ in range(n):
+        k = r.random()
+        if k < 0.45:
+            out.append("ok")
+        elif k < 0.7:
+            out.append(r.choice(DUP_MENU))
+        elif k < 0.9:
+            out.append(r.choice(CORRUPT_MENU))
+        else:
+            out.append(r.choice(["x", "delay:60000"]))
+    return out
+
+
+def auth_script(r, idx, fate_vec=None):
+    fam = r.choice(["faults", "faults", "replay", "replay", "reset", "splice", "vn", "retry", "spoof"])
+    cfg = base_cfg(r, server=tcfg_menu(r), client=tcfg_menu(r))
+    cfg["server"]["idle_ms"] = 20000
+    cfg["client"]["idle_ms"] = 20000
+    if fate_vec is not None:
+        m = {"ok": "ok", "x": r.choice(CORRUPT_MENU), "dup": r.choice(DUP_MENU), "delay": "delay:50000"}
+        half = len(fate_vec) // 2
+        cfg["fates_c2s"] = [m[f] for f in fate_vec[:half]] + auth_fates(r, 10)
+        cfg["fates_s2c"] = [m[f] for f in fate_vec[half:]] + auth_fates(r, 10)
+    else:
+        cfg["fates_c2s"] = auth_fates(r, 24)
+        cfg["fates_s2c"] = auth_fates(r, 24)
+    steps = [{"do": "connect", "n": 1}]
+    if fam == "splice":
+        cfg["clients"] = 2
+        steps.append({"do": "connect", "n": 2})
+        steps.append({"do": "app", "n": 2, "c": 0, "streams": [{"dir": 0, "size": 3000, "chunk": 1000}]})
+    if fam == "retry":
+        cfg["incoming"] = r.choice(["retry", "validate"])
+    if fam == "spoof" and r.random() < 0.5:
+        cfg["migration"] = False
+    steps.append(workload(r, big=r.random() < 0.2))
+    for _ in range(r.choice([1, 2, 4, 6])):
+        steps.append({"do": "run", "us": r.choice([0, 3000, 12000, 30000, 100000, 400000])})
+        if r.random() < 0.25:
+            steps.append({"do": "op", "n": r.choice([0, 1]), "c": 0, "op": {"op": "key_update"}})
+        if fam in ("replay", "faults", "retry"):
+            steps.append({"do": "replay", "dir": r.choice(["c2s", "s2c"]), "nth": r.choice([0, 0, 1, 2, 3, -1, -2, -5]), "delay": r.choice([0, 0, 20000])})
+        elif fam == "spoof":
+            steps.append({"do": "replay", "dir": r.choice(["c2s", "s2c", "s2c"]), "nth": r.choice([0, 1, -1, -2, -3]),
+                          "from": [r.choice([1, 7]), r.choice([1, 2]), r.choice([50000, 4433, 1234])]})
+        elif fam == "reset":
+            steps.append({"do": "reset_like", "to": r.choice([0, 1]), "c": 0, "token": r.choice(["exact", "flip", "flip", "random"]),
+                          "len": r.choice([16, 20, 21, 22, 38, 100, 1200])})
+        elif fam == "splice":
+            a = r.choice([1, 2])
+            steps.append({"do": "splice", "from_n": a, "to_n": 3 - a, "nth": r.choice([-1, -2, 0, 1])})
+        elif fam == "vn":
+            steps.append({"do": "vn", "to": 1, "own": r.random() < 0.3})
+    if r.random() < 0.4:
+        steps.append({"do": "op", "n": r.choice([0, 1]), "c": 0, "op": {"op": "close", "code": 3, "reason": "x"}})
+        steps.append({"do": "run", "us": 20000})
+        steps.append({"do": "replay", "dir": r.choice(["c2s", "s2c"]), "nth": r.choice([0, 1, -1, -3])})
+    steps.append({"do": "run_until", "what": "apps", "max_us": 20000000})
+    steps.append({"do": "run", "us": 1000000})
+    # the replay of the connection-creating Initial after everything else
+    if r.random() < 0.5:
+        steps.append({"do": "replay", "dir": "c2s", "nth": 0})
+        steps.append({"do": "run", "us": 200000})
+    return {"cfg": cfg, "steps": steps, "tag": {"family": "auth-" + fam, "idx": idx}}
